@@ -152,6 +152,10 @@ func scReload(seq string, mode string) func(x *vs.Exec) {
 			if err := w.Svc.UpdateAllConfigurer(ps, vv); err != nil {
 				vs.Fail("reload %d: %v", i, err)
 			}
+			if mode == "rapid" && i == 0 {
+				// the next reload follows at once: stops overlap the registrations still being sent
+				continue
+			}
 			if mode == "late" && i == 0 {
 				// the registrations are sent and their answers arrive only after the next reload has been applied
 				time.Sleep(2 * time.Second)
@@ -454,6 +458,9 @@ func main() {
 		}
 	}
 	c.Note("enumerated_cases", len(names))
+	for _, n := range []string{"reload/1-->---/rapid", "reload/1-->2--/rapid", "reload/11->-1-/rapid"} {
+		c.ExploreBoth(n, 2, 0.2)
+	}
 	for _, n := range []string{"reload/11->21-/ok", "reload/1-1>2-2/ok", "reload/11->21-/late", "health/offo/2", "health/ofofo/3"} {
 		c.ExploreBoth(n, 1, 0.25)
 	}
